@@ -21,6 +21,8 @@ import (
 	"istio.io/api/annotation"
 	networking "istio.io/api/networking/v1alpha3"
 	securityv1beta1 "istio.io/api/security/v1beta1"
+	typev1beta1 "istio.io/api/type/v1beta1"
+	securityclient "istio.io/client-go/pkg/apis/security/v1"
 	"istio.io/istio/pilot/pkg/model"
 	"istio.io/istio/pkg/config"
 	"istio.io/istio/pkg/config/constants"
@@ -41,6 +43,7 @@ import (
 //	msvc / meps / mdel     memory-registry service: add-or-update, set endpoints (EDS-only update), remove
 //	pod / poddel           kube pod (ambient flavour): create-or-update, delete
 //	ksvc / ksvcdel         kube service (ambient flavour)
+//	authz / authzdel       kube AuthorizationPolicy (ambient flavour; Mode ALLOW | DENY, SA principal, Sel selector)
 //	sub / unsub            client side: the on-demand ztunnel client (un)subscribes to Names
 type Op struct {
 	K       string            `json:"k"`
@@ -97,10 +100,11 @@ type world struct {
 	Mem     map[string]Op // msvc by host (Eps = current endpoints)
 	Pods    map[string]Op
 	KSvc    map[string]Op
+	Authz   map[string]Op // kube AuthorizationPolicy objects (ambient flavour)
 }
 
 func newWorld(ambient bool) *world {
-	return &world{Ambient: ambient, Cfg: map[string]Op{}, Mem: map[string]Op{}, Pods: map[string]Op{}, KSvc: map[string]Op{}}
+	return &world{Ambient: ambient, Cfg: map[string]Op{}, Mem: map[string]Op{}, Pods: map[string]Op{}, KSvc: map[string]Op{}, Authz: map[string]Op{}}
 }
 
 func (w *world) clone() *world {
@@ -116,6 +120,9 @@ func (w *world) clone() *world {
 	}
 	for k, v := range w.KSvc {
 		n.KSvc[k] = v
+	}
+	for k, v := range w.Authz {
+		n.Authz[k] = v
 	}
 	return n
 }
@@ -150,6 +157,10 @@ func (w *world) note(o Op) {
 		w.KSvc[o.N] = o
 	case "ksvcdel":
 		delete(w.KSvc, o.N)
+	case "authz":
+		w.Authz[o.N] = o
+	case "authzdel":
+		delete(w.Authz, o.N)
 	}
 }
 
@@ -569,7 +580,28 @@ func (w *world) kubeObjects() []runtime.Object {
 	for _, k := range sortedKeys(w.KSvc) {
 		out = append(out, mkKSvc(w.KSvc[k]))
 	}
+	for _, k := range sortedKeys(w.Authz) {
+		out = append(out, mkAuthz(w.Authz[k]))
+	}
 	return out
+}
+
+// mkAuthz: a kube AuthorizationPolicy in namespace default (Mode = ALLOW | DENY, SA = the principal it names, Sel = the
+// workload selector; without selector it is namespace-wide).
+func mkAuthz(o Op) *securityclient.AuthorizationPolicy {
+	p := &securityclient.AuthorizationPolicy{
+		ObjectMeta: metav1.ObjectMeta{Name: o.N, Namespace: "default"},
+		Spec: securityv1beta1.AuthorizationPolicy{
+			Action: securityv1beta1.AuthorizationPolicy_Action(securityv1beta1.AuthorizationPolicy_Action_value[o.Mode]),
+			Rules: []*securityv1beta1.Rule{{From: []*securityv1beta1.Rule_From{{Source: &securityv1beta1.Source{
+				Principals: []string{"cluster.local/ns/default/sa/" + o.SA},
+			}}}}},
+		},
+	}
+	if len(o.Sel) > 0 {
+		p.Spec.Selector = &typev1beta1.WorkloadSelector{MatchLabels: o.Sel}
+	}
+	return p
 }
 
 // ---------------------------------------------------------------- applying an op to a live server
@@ -624,6 +656,12 @@ func (st *site) apply(w *world, o Op) error {
 	case "ksvcdel":
 		if _, ok := w.KSvc[o.N]; ok {
 			return st.s.KubeClient().Kube().CoreV1().Services("default").Delete(context.Background(), o.N, metav1.DeleteOptions{})
+		}
+	case "authz":
+		clienttest.NewWriter[*securityclient.AuthorizationPolicy](st.f, st.s.KubeClient()).CreateOrUpdate(mkAuthz(o))
+	case "authzdel":
+		if _, ok := w.Authz[o.N]; ok {
+			return st.s.KubeClient().Istio().SecurityV1().AuthorizationPolicies("default").Delete(context.Background(), o.N, metav1.DeleteOptions{})
 		}
 	case "sub", "unsub", "csub", "cnack", "creconn":
 		// client side, handled by the stream
